@@ -13,7 +13,9 @@ SPEC = "spec_c01"
 SHARD = 4
 RULE = ("random deposit histories: fields from {0,1,2^32-1 / 0x00..,0xff.. / nil,0,1,2^256-1,random}, metadata lengths "
         "{0,1,31,32,33,64,135,136,137,300,1000}, both leaf types, 0-4 events per block incl. claims and token mappings, restarts "
-        "(new processor on the same DB) at random points; a case is non-trivial when it contains >= 2 deposits; distinct = distinct op list")
+        "(new processor on the same DB) at random points; every 4th case starts from a synthetic pre-state (root row + path nodes of a tree of n equal leaves, "
+        "n in {1,2,3,7,8,255,256,2^16-1,2^16,2^24-2,2^31-1,2^31,2^32-6,2^32-3, 2^k-{0,1,2}}) and appends real deposits across the carry; "
+        "a case is non-trivial when it contains >= 2 deposits; distinct = distinct op list")
 ASSUMPTIONS = ["deposit counts on chain are consecutive from 0 (the contract guarantees it)",
                "Keccak-256 modelled as an injective node function in the theorems that read the stored nodes (restart)",
                "the EVM/Solidity side is represented by a hand transcription of DepositContractBase (Model/Contracts.v)"]
@@ -22,7 +24,7 @@ distribution = bc.distribution
 
 
 def cases_n(tier):
-    return 12 if tier == "quick" else 150
+    return 16 if tier == "quick" else 200
 
 
 def nontrivial_key(o):
